@@ -1,7 +1,7 @@
 (* SQLITE layer: name symmetry between the create and the drop paths of gen (C19), and prefix equivariance of the
    name-bearing building blocks of gen (C14). *)
 From Coq Require Import Lia.
-From VV.M1 Require Import Validate Oracles PrefixStrP.
+From VV.M1 Require Import Validate Oracles.
 From VV.SQLITE Require Import Corr Known WitnessP Prefix.
 
 (* ================================ C19: names symmetric between create and drop ================================ *)
@@ -160,6 +160,9 @@ Proof.
   - now rewrite rename_name_with_uq.
   - now rewrite rename_name_with_ix.
 Qed.
+
+Lemma append_inj : forall p a b, p +++ a = p +++ b -> a = b.
+Proof. induction p as [|x p IH]; intros a b H; cbn [String.append] in H; [exact H|]. injection H as H. now apply IH. Qed.
 
 Lemma literal_constraint_inj p a b : literal_constraint p a = literal_constraint p b -> a = b.
 Proof.
